@@ -150,6 +150,14 @@ func (q *Q) String() string {
 	case "obj":
 		return "{a: (" + q.Kids[0].String() + "), b: (" + q.Kids[1].String() + ")}"
 	case "bin":
+		if q.Name == "*" {
+			// string * number repeats the string (up to 256 MiB in the engine):
+			// a decoded 32 bit field as the count makes strings whose later
+			// tojson/split copies exhaust the shard's memory limit on a busy
+			// machine (an INCONCLUSIVE run, never a verdict).  Counts above 4096
+			// are not multiplied; the guard is the same program on both sides.
+			return "((" + q.Kids[0].String() + ") as $l | (" + q.Kids[1].String() + ") as $r | if ((($l | type) == \"string\" and ($r | type) == \"number\" and $r > 4096) or (($r | type) == \"string\" and ($l | type) == \"number\" and $l > 4096)) then \"BIG\" else ($l * $r) end)"
+		}
 		return "((" + q.Kids[0].String() + ") " + q.Name + " (" + q.Kids[1].String() + "))"
 	case "if":
 		return "(if (" + q.Kids[0].String() + ") then (" + q.Kids[1].String() + ") else (" + q.Kids[2].String() + ") end)"
@@ -494,7 +502,7 @@ func init() {
 		S("as-arg-startswith", 1, `. as $x | try ("abcabc" | startswith($x)) catch "E"`, TAny),
 		S("as-arg-from-entries", 1, `. as $x | try ([{key: $x, value: 1}] | from_entries) catch "E"`, TAny),
 		S("as-arg-from-entries-v", 1, `. as $x | [{key: "k", value: $x}] | from_entries`, TObj),
-		S("as-arg-mul-str", 1, `. as $x | try ("ab" * $x) catch "E"`, TAny),
+		S("as-arg-mul-str", 1, `. as $x | try (if ($x | type) == "number" and $x > 4096 then "BIG" else "ab" * $x end) catch "E"`, TAny),
 		S("as-arg-bsearch", 1, `. as $x | try ([1, 2, 3, 255] | bsearch($x)) catch "E"`, TAny),
 		S("as-arg-nth", 1, `. as $x | try ([1, 2, 3] | nth($x)) catch "E"`, TAny),
 		S("as-arg-flatten", 1, `. as $x | try ([1, [2, [3]]] | flatten($x)) catch "E"`, TAny),
@@ -558,7 +566,7 @@ func init() {
 		S("as-arg-slice", 1, `. as $x | [10, 20, 30, 40] | .[$x:]`, TAny),
 		S("as-arg-slice", 1, `. as $x | "abcdef" | .[:$x]`, TAny),
 		S("arg-has-index", 1, `. as $x | [10, 20, 30] | has($x)`, TBool),
-		S("as-arg-mul-str", 1, `. as $x | try ("ab" * $x) catch "E"`, TAny),
+		S("as-arg-mul-str", 1, `. as $x | try (if ($x | type) == "number" and $x > 4096 then "BIG" else "ab" * $x end) catch "E"`, TAny),
 		S("arg-implode", 1, `try ([.] | implode) catch "E"`, TAny),
 		S("num-key", 1, "{(tostring): .}", TObj),
 		S("todate", 1, `try todate catch "E"`, TAny),
